@@ -53,6 +53,13 @@ CLAIMED = {
  "C15": ("exploration", "bounded exhaustive enumeration of permutations of independent top-level blocks (all permutations up to N blocks, transpositions/rotations/reversal beyond) over corpus, generated and hand-written dependency-shape documents",
          "For every qualifying accepted document every permutation within the bound is built: it must be accepted, every section must hold the same entries with deep-equal content, and the key order of each section and the interaction order inside each tag must follow the new text order.",
          "Block -> catalog key attribution is computed from the text and validated against the original catalog (documents it cannot explain are skipped and counted)."),
+
+ "C14": ("model_checking", "exhaustive enumeration of INCLUDE parameter strings over a path alphabet with the library's file-system accesses observed through an os-shim build overlay (cross-checked against strace), plus all include graphs up to k files against a reference include expansion",
+         "Every parameter string up to the length bound (bare and quoted, included from the root and from a sub-directory) is built on a layout with decoys outside the project; every observed file-system access must be the root, the including file or lie in the including file's directory, and names with '.'/'..' segments, absolute names and backslashes must be refused without any access. Every include graph on k files (with missing-file and directory targets) must get the reference verdict: recursion error iff a file is re-entered while on the include stack, repeated inclusion accepted, missing/directory located at the INCLUDE.",
+         "The shim only sees calls made through package os (rewritten in every library file of the repository and of jsight-schema-core); strace on every 97th case validates that nothing bypasses it where ptrace is permitted. No symlinks are created."),
+ "C19": ("exploration", "exhaustive enumeration of banned-directive configurations (all sets of size <= 2 over the 31 kinds) x a project set with every kind in every placement",
+         "For all 497 banned sets and every project of the set (each kind written directly, inside an INCLUDEd file, inside a pasted MACRO body, inside an unpasted MACRO body, and absent): a banned kind occurs => rejected with the not-allowed error located on a directive of that kind; none occurs => the result equals the build without the option.",
+         "Projects are minimal valid documents per kind plus all-kinds documents; banned sets larger than 2 are not enumerated."),
 }
 
 NOT_YET = {}
